@@ -79,7 +79,11 @@ func (w *World) Snapshot() []string {
 func (w *World) renderDecoy(st *Step) {
 	defer func() { recover() }()
 	d := NewWorld(0, "", nil, nil)
-	d.Tab.AddHeaders("decoy header one", "h2", "third")
+	if st.C&2 != 0 {
+		d.Tab.AddHeaders("id", "name", "id") // JSON refuses duplicate headers, after having seen some
+	} else {
+		d.Tab.AddHeaders("decoy header one", "h2", "third")
+	}
 	d.Tab.AddRowItems("a much longer decoy cell than anything else", 1, true)
 	if st.C&1 != 0 {
 		// a cell the JSON renderer rejects after it has started writing
@@ -273,9 +277,9 @@ func (engC14) Gen(r *Rng, s *Script, idx int, tier string) {
 				s.Steps = append(s.Steps, Step{Op: "decoyRender", A: FmtText, B: []int{4, 8, 5}[r.Intn(3)]})
 			}
 		} else if r.Chance(1, 8) {
-			s.Steps = append(s.Steps, Step{Op: "decoyRender", A: r.Intn(NFormats), B: r.Intn(NDecoChoices), C: r.Intn(2)})
+			s.Steps = append(s.Steps, Step{Op: "decoyRender", A: r.Intn(NFormats), B: r.Intn(NDecoChoices), C: r.Intn(4)})
 			if r.Chance(1, 2) {
-				s.Steps = append(s.Steps, Step{Op: "decoyRender", A: FmtJSON, C: 1})
+				s.Steps = append(s.Steps, Step{Op: "decoyRender", A: FmtJSON, C: 1 + r.Intn(3)})
 			}
 		}
 		if autoFocus && r.Chance(1, 2) {
